@@ -62,7 +62,7 @@ var All = []Prop{
 	{"C17", []string{"ROUTE", "FANOUT", "SORTED", "DEADSTORE", "GOCAPTURE", "REPLYFLAGS", "TXRMW", "SKIPPEDEFFECT", "ELEMPTR", "WGWAIT", "TEMPLATEMAP", "SPRINTEQ", "POOLESCAPE", "REGEXANCHOR", "RECVSTORE", "TRYLOCKSKIP", "LOSSYCMP", "DIRTYGUARD", "TXSHADOW", "LOOSENAME", "POOLDIRTY", "SHAREDSCRATCH", "CUTONCE", "IFACEEQ", "REPEATCMP", "DEADERR", "DEADLINE", "GLOBROOT", "MAPORDER", "POOLRESET"},
 		"the failed-point bookkeeping binary-searches only a slice that was sorted as a whole; every RPC handler forwards to itself on the destination server with its own arguments, guarded by the destination test, and acts locally only on the destination; fan-outs cover the collection's complete shard list; \"not found\" is only reported when every shard answered; merged search results are cut to the client's limit; merged shard results are sorted before every successful return with more than one shard; reply flags are read; a record is read and written back in one transaction; fan-out functions wait for their goroutines; the counter that decides 'every shard answered' is incremented only where the call succeeded; no comparator compares the same operands twice",
 		"exactly-once effects, merge order and failed-point bookkeeping values", 30},
-	{"C18", []string{"VALID", "LIMITS", "ENUM", "TYPETAB", "TAGGED", "VECLEN", "HANDBUILT", "DEADSTORE", "SKIPPEDEFFECT", "ELEMPTR", "TEMPLATEMAP", "SPRINTEQ", "POOLESCAPE", "REGEXANCHOR", "RECVSTORE", "TRYLOCKSKIP", "LOSSYCMP", "DIRTYGUARD", "HANDLERSHARED", "DOCFLOW", "LOOSENAME", "POOLDIRTY", "SHAREDSCRATCH", "CUTONCE", "IFACEEQ", "REPEATCMP", "DEADERR", "DEADLINE", "GLOBROOT", "MAPORDER", "POOLRESET"},
+	{"C18", []string{"MERGE", "VALID", "LIMITS", "ENUM", "TYPETAB", "TAGGED", "VECLEN", "HANDBUILT", "DEADSTORE", "SKIPPEDEFFECT", "ELEMPTR", "TEMPLATEMAP", "SPRINTEQ", "POOLESCAPE", "REGEXANCHOR", "RECVSTORE", "TRYLOCKSKIP", "LOSSYCMP", "DIRTYGUARD", "HANDLERSHARED", "DOCFLOW", "LOOSENAME", "POOLDIRTY", "SHAREDSCRATCH", "CUTONCE", "IFACEEQ", "REPEATCMP", "DEADERR", "DEADLINE", "GLOBROOT", "MAPORDER", "POOLRESET"},
 		"for every vector index type both schema validators compare the vector length with the index dimension on every success path; queries built by hand in a handler satisfy the validator of their own type; request bodies are only read through DecodeValid, which only succeeds after Validate; no failing validation edge can reach a cluster call; every documented limit is enforced by the hand-written validators; index-type and quantizer dispatchers are exhaustive; the types validation normalises to are the types the index dispatcher asserts; optional union payloads are only dereferenced behind a nil or tag test; on every successful way through Query.Validate every option block it validates at all was looked at; a validator does not assign defaults to a copy of its receiver; the pre-filter of every option block is validated on the way through Query.Validate; a dotted property path is not resolved with a single Cut; no == between two unknown any values",
 		"absence of panics in general for all request bytes; panics on goroutines outside the recovery middleware", 150},
 	{"C19", []string{"SORTABLE", "LAYOUT", "KEYS"},
@@ -213,7 +213,7 @@ var round7Decides = map[string]string{
 	"C15": "answers of a fan-out are not matched to requests by the slot of a second walk over the same map",
 	"C16": "an object from a sync.Pool is wiped as a whole before use; bucket bytes are not assigned inside a transaction callback to a variable that outlives the transaction",
 	"C17": "the rpc codec's body readers call the decoder on every successful return; a deadline set for the handshake is cleared before the connection is used",
-	"C18": "every uuid.MustParse in the handlers is applied to a field that the request type's Validate parses",
+	"C18": "every uuid.MustParse in the handlers is applied to a field that the request type's Validate parses; the page of a search is cut with the offset clamped to the number of results before the limit is added, so that the unbounded offset of a request cannot wrap the sum (a negative upper bound panics on a goroutine without recovery; found and repaired, 6e1ff8c)",
 	"C19": "no codec sizes its output by the capacity of its argument",
 	"C20": "the final block of both AVX kernels, evaluated over a lane model (VADDPS, VADDSS, VHADDPS, VEXTRACTF128 and the register shuffles), adds every lane of every packed accumulator and lane 0 of every scalar accumulator into the returned float exactly once",
 }
